@@ -278,7 +278,11 @@ func fStep(prof FProfile) func(t *rapid.T, w *world.World) world.Action {
 				return world.Action{Kind: world.KConsumerTx, Chain: id, Sender: rapid.SampledFrom([]string{"cuser1", "cuser2"}).Draw(t, "cuser"), Amount: 1, Fee: rapid.SampledFrom([]string{"1stake", "1000003stake", "999999999999stake", "7stake"}).Draw(t, "fee")}
 			}
 		case "timeout":
-			// macro: let an undelivered provider packet time out (the receiver must pass the timeout time first)
+			// macro: let undelivered provider packets time out (the receiver must pass the timeout time first), on
+			// one or several consumers, once or repeatedly per consumer, optionally after letting packets pile up
+			// and optionally followed by a step over the unbonding period (all stopped consumers due together)
+			var sched []world.Action
+			pile := prof.Remove && rapid.IntRange(0, 2).Draw(t, "pileup") == 0
 			for _, id := range f.Order {
 				p := f.Paths[id]
 				pending := 0
@@ -287,20 +291,44 @@ func fStep(prof FProfile) func(t *rapid.T, w *world.World) world.Action {
 						pending++
 					}
 				}
+				_, open := w.P.PApp.ProviderKeeper.GetConsumerIdToChannelId(w.P.Ctx(), id)
+				if pile && open && w.P.PApp.ProviderKeeper.GetConsumerPhase(w.P.Ctx(), id) == world.PhLaunched {
+					pending += 2
+				}
 				if pending > 0 && !p.C.Halted && rapid.IntRange(0, 2).Draw(t, "tomacro") > 0 {
-					to := int64(w.Cfg.Provider.CcvTimeout) + 5e9
-					w.Agenda = append(w.Agenda,
+					sched = append(sched,
 						world.Action{Kind: world.KBlock, Chain: id, Dt: 1e9},
 						world.Action{Kind: world.KBlock, Chain: id, Dt: 1e9},
 						world.Action{Kind: world.KRelay, Consumer: id, Relay: &world.RelaySpec{Op: "timeout", Dir: "p2c", K: rapid.IntRange(1, 3).Draw(t, "tok")}},
 						world.Action{Kind: world.KBlock, Dt: 2e9})
 					if pending > 1 && rapid.Bool().Draw(t, "second-timeout") {
-						w.Agenda = append(w.Agenda,
+						sched = append(sched,
 							world.Action{Kind: world.KRelay, Consumer: id, Relay: &world.RelaySpec{Op: "timeout", Dir: "p2c", K: 2}},
-							world.Action{Kind: world.KBlock, Dt: 2e9})
+							world.Action{Kind: world.KBlock, Dt: int64(rapid.IntRange(1, 3).Draw(t, "stdt")) * 1e9})
 					}
-					return world.Action{Kind: world.KBlock, Dt: to}
 				}
+			}
+			if len(sched) > 0 {
+				to := int64(w.Cfg.Provider.CcvTimeout) + 5e9
+				if pile {
+					// two epochs with a power change each: every launched consumer gets two more packets
+					bpe := w.P.PApp.ProviderKeeper.GetBlocksPerEpoch(w.P.Ctx())
+					for e := 0; e < 2; e++ {
+						w.Agenda = append(w.Agenda, world.Action{Kind: world.KDelegate, Sender: "bob", Val: w.ValOrder[1+e%2], Amount: int64(rapid.IntRange(1, 4).Draw(t, "piledel")) * 1_000_000})
+						for b := int64(0); b <= bpe; b++ {
+							w.Agenda = append(w.Agenda, world.Action{Kind: world.KBlock, Dt: 1e9})
+						}
+					}
+				}
+				w.Agenda = append(w.Agenda, world.Action{Kind: world.KBlock, Dt: to})
+				w.Agenda = append(w.Agenda, sched...)
+				if prof.Remove && rapid.IntRange(0, 2).Draw(t, "then-unbond") == 0 {
+					ub, _ := w.P.PApp.StakingKeeper.UnbondingTime(w.P.Ctx())
+					w.Agenda = append(w.Agenda, world.Action{Kind: world.KBlock, Dt: int64(ub) + int64(rapid.IntRange(-3, 3).Draw(t, "uboff"))*1e9})
+				}
+				a := w.Agenda[0]
+				w.Agenda = w.Agenda[1:]
+				return a
 			}
 			if len(f.Order) > 0 {
 				id := rapid.SampledFrom(f.Order).Draw(t, "tochain")
